@@ -39,6 +39,7 @@ from liquid2.exceptions import UnknownFilterError
 from liquid2.expression import Expression
 from liquid2.limits import MAX_STR_INT
 from liquid2.limits import to_int
+from liquid2.unescape import escape
 from liquid2.unescape import unescape
 
 if TYPE_CHECKING:
@@ -209,6 +210,9 @@ class StringLiteral(Literal[str]):
 
     def __init__(self, token: TokenT, value: str):
         super().__init__(token, value)
+
+    def __str__(self) -> str:
+        return escape(self.value)
 
     def __eq__(self, other: object) -> bool:
         return isinstance(other, StringLiteral) and self.value == other.value
@@ -384,10 +388,20 @@ class TemplateString(Expression):
         return isinstance(other, TemplateString) and self.template == other.template
 
     def __str__(self) -> str:
-        return repr(
-            "".join(
-                e.value if isinstance(e, StringLiteral) else f"${{{e}}}"
-                for e in self.template
+        # Choose a quote by looking at the literal text only. String literals
+        # inside an interpolated expression are free to use either.
+        text = "".join(e.value for e in self.template if isinstance(e, StringLiteral))
+        quote = '"' if "'" in text and '"' not in text else "'"
+        return "".join(
+            (
+                quote,
+                *(
+                    escape(e.value, quote)
+                    if isinstance(e, StringLiteral)
+                    else f"${{{e}}}"
+                    for e in self.template
+                ),
+                quote,
             )
         )
 
@@ -528,7 +542,7 @@ class Path(Expression):
                 if RE_PROPERTY.fullmatch(segment):
                     buf.append(f".{segment}")
                 else:
-                    buf.append(f"[{segment!r}]")
+                    buf.append(f"[{escape(segment)}]")
             else:
                 buf.append(f"[{segment}]")
         return "".join(buf)
